@@ -10,6 +10,8 @@ import (
 	"encoding/json"
 	"fmt"
 	"math/big"
+	"os"
+	"runtime/debug"
 
 	"verifharness/hlib"
 )
@@ -23,6 +25,7 @@ type Case struct {
 	H    []HSpec  `json:"h,omitempty"`   // headers to fabricate
 	Env  *EnvSpec `json:"env,omitempty"` // chain environment
 	Ops  []OpSpec `json:"ops,omitempty"` // cache history
+	Anc  []HSpec  `json:"anc,omitempty"` // stored ancestors (hist cases)
 	Dev  string   `json:"dev,omitempty"` // deviation applied to the valid child (verify cases)
 	Note string   `json:"note,omitempty"`
 }
@@ -69,6 +72,9 @@ func (c *ctxT) run(cs Case) {
 	func() {
 		defer func() {
 			if r := recover(); r != nil {
+				if os.Getenv("C09_STACK") != "" { // development aid
+					fmt.Fprintf(os.Stderr, "panic in case %d (%s): %v\n%s\n", cs.ID, cs.Kind, r, debug.Stack())
+				}
 				c.rep.Fail("harness-panic:"+cs.Kind, fmt.Sprintf("unexpected panic while executing the case: %v", r), cs)
 				term = ""
 			}
@@ -94,6 +100,8 @@ func (c *ctxT) run(cs Case) {
 			term = c.runVerify(cs)
 		case "cache":
 			term = c.runCache(cs)
+		case "hist":
+			term = c.runHist(cs)
 		case "chain":
 			c.runChain(cs) // monitor only (no Coq term)
 		case "sorted":
